@@ -138,9 +138,9 @@ func vfsStat(p string) int {
 
 func vfsMkdirAll(p string) bool {
 	e := verifPathElems(p)
-	vfsMut++
 	if !vfsInside(e) {
 		vfsOutside++
+		vfsMut++
 	}
 	if vfsTooLong(e) {
 		return false
@@ -148,6 +148,8 @@ func vfsMkdirAll(p string) bool {
 	for n := 1; n <= len(e); n++ {
 		i := vfsFind(e[:n])
 		if i < 0 {
+			// only a directory that is actually made changes the file system (MkdirAll of an existing one does not)
+			vfsMut++
 			vfs = append(vfs, vEntry{elems: append([]string{}, e[:n]...), kind: 1})
 		} else if vfs[i].kind != 1 {
 			return false
